@@ -40,6 +40,17 @@ def extract(t):
 
 
 def run_checks(ctx, rep):
+    # a deterministic target (the generator's "det" targets return the same value at the same point) for which the options do not request
+    # uncertainty handling - in whatever spelling of "false" - must be run and reported as deterministic
+    for t in runlevel.get_pool(ctx):
+        sp = t["spec"]
+        if t["constructed"] and sp["mode"] == "det" and t.get("final") and t["error"] is None and t.get("result"):
+            req = dict(sp.get("options", {}), **{k: eval(v, {"np": __import__("numpy")}) for k, v in (sp.get("np_options") or {}).items()})
+            if not req.get("uncertainty_handling") and not req.get("specify_target_noise"):
+                if t["final"].get("unc") != 0 or t["result"]["target_type"] != "deterministic":
+                    rep.violation("det_fields", "bads.py:_init_optim_state_", f"deterministic target, uncertainty handling not requested (uncertainty_handling={req.get('uncertainty_handling')!r}), "
+                                  f"but the run used uncertainty level {t['final'].get('unc')} and reports target_type={t['result']['target_type']!r}; {runlevel.spec_tag(sp)}",
+                                  {"kind": "det_run", "spec": sp})
     traces = [t for t in runlevel.get_pool(ctx) if t["constructed"] and t["spec"]["mode"] == "det" and t["final"].get("unc") == 0
               and any(k == "INITDONE" for k, _ in t["events"])]
     items = []
@@ -126,6 +137,22 @@ def multi_improve_specs(ctx, n):
     return specs
 
 
+def spelling_specs(ctx):
+    """Deterministic targets with uncertainty_handling switched off in other spellings than the literal False (0, 0.0, numpy.bool_(False)):
+    a falsy value must mean 'not requested' in every spelling, so the run stays a deterministic one."""
+    from .. import gen
+    rng = ctx.sub_rng("c04spell")
+    specs = []
+    for opt, np_opt in (({"uncertainty_handling": 0}, None), (None, {"uncertainty_handling": "np.bool_(False)"}), ({"uncertainty_handling": False}, None),
+                        ({"uncertainty_handling": 0.0}, None), ({"specify_target_noise": 0}, None), (None, {"specify_target_noise": "np.bool_(False)"})):
+        sp = gen.make_spec(rng, D=rng.choice([1, 2]), mode="det", geom=rng.choice(["box", "tight"]), opt_loc="inside", cons=None, target="quad")
+        sp["options"] = dict({"n_search": 32, "max_fun_evals": 40}, **(opt or {}))
+        if np_opt:
+            sp["np_options"] = np_opt
+        specs.append(sp)
+    return specs
+
+
 def move_primitive(ctx, rep):
     """`_update_incumbent_` (the single routine through which search and poll move the incumbent) must adopt EXACTLY the point and values
     it is given - also when the new point is extremely close to the old one (fine meshes) - as Inc.searchUpdate / Noisy.move do."""
@@ -159,6 +186,7 @@ def run(ctx):
     nmove = move_primitive(ctx, rep)
     runlevel.with_extra(ctx, "c04opt", lambda: start_at_optimum_specs(ctx, 6 if ctx.quick else 60))
     runlevel.with_extra(ctx, "c04multi", lambda: multi_improve_specs(ctx, 12 if ctx.quick else 100))
+    runlevel.with_extra(ctx, "c04spell", lambda: spelling_specs(ctx))
     stats, samples = run_checks(ctx, rep)
     dstats = runlevel.det_replay(ctx, rep)
     rep.coverage = {
